@@ -558,6 +558,17 @@ private:
 
 static const String _subscribePrefixWithColon = "SUBSCRIBE:";
 
+/** Arguments of a PassMessageCallback / SendMessageCallback traversal; remembers who already got the Message */
+class PassMessageCallbackArgs
+{
+public:
+   PassMessageCallbackArgs(const MessageRef & msgRef, bool includeSelfOkay) : _msgRef(msgRef), _includeSelfOkay(includeSelfOkay) {/* empty */}
+
+   const MessageRef & _msgRef;
+   const bool _includeSelfOkay;
+   Hashtable<const AbstractReflectSession *, Void> _sentTo;
+};
+
 void
 StorageReflectSession ::
 MessageReceivedFromGateway(const MessageRef & msgRef, void * userData)
@@ -880,11 +891,13 @@ MessageReceivedFromGateway(const MessageRef & msgRef, void * userData)
       {
          NodePathMatcher matcher;
          (void) matcher.PutPathsFromMessage(PR_NAME_KEYS, PR_NAME_FILTERS, msg, DEFAULT_PATH_PREFIX);
-         (void) matcher.DoTraversal((PathMatchCallback)PassMessageCallbackFunc, this, GetGlobalRoot(), true, const_cast<MessageRef *>(&msgRef));
+         PassMessageCallbackArgs args(msgRef, IsRoutingFlagSet(MUSCLE_ROUTING_FLAG_REFLECT_TO_SELF));
+         (void) matcher.DoTraversal((PathMatchCallback)PassMessageCallbackFunc, this, GetGlobalRoot(), true, &args);
       }
       else if (_parameters.HasName(PR_NAME_KEYS, B_STRING_TYPE))
       {
-         (void) _defaultMessageRoute.DoTraversal((PathMatchCallback)PassMessageCallbackFunc, this, GetGlobalRoot(), true, const_cast<MessageRef *>(&msgRef));
+         PassMessageCallbackArgs args(msgRef, IsRoutingFlagSet(MUSCLE_ROUTING_FLAG_REFLECT_TO_SELF));
+         (void) _defaultMessageRoute.DoTraversal((PathMatchCallback)PassMessageCallbackFunc, this, GetGlobalRoot(), true, &args);
       }
       else DumbReflectSession::MessageReceivedFromGateway(msgRef, userData);
    }
@@ -1038,8 +1051,8 @@ status_t StorageReflectSession :: SendMessageToMatchingSessions(const MessageRef
 
       NodePathMatcher matcher;
       MRETURN_ON_ERROR(matcher.PutPathString(s, filter));
-      void * sendMessageData[] = {const_cast<MessageRef *>(&msgRef), &includeSelf}; // gotta include the includeSelf param too, alas
-      (void) matcher.DoTraversal((PathMatchCallback)SendMessageCallbackFunc, this, GetGlobalRoot(), true, sendMessageData);
+      PassMessageCallbackArgs args(msgRef, includeSelf);
+      (void) matcher.DoTraversal((PathMatchCallback)SendMessageCallbackFunc, this, GetGlobalRoot(), true, &args);
       return B_NO_ERROR;
    }
    else
@@ -1100,8 +1113,8 @@ int
 StorageReflectSession ::
 SendMessageCallback(DataNode & node, void * userData)
 {
-   void ** a = (void **) userData;
-   return PassMessageCallbackAux(node, *((MessageRef *)a[0]), *((bool *)a[1]));
+   PassMessageCallbackArgs * args = static_cast<PassMessageCallbackArgs *>(userData);
+   return PassMessageCallbackAux(node, args->_msgRef, args->_includeSelfOkay, &args->_sentTo);
 }
 
 status_t StorageReflectSession :: InsertOrderedData(const ConstMessageRef & msgRef, Hashtable<String, DataNodeRef> * optNewNodes)
@@ -1250,17 +1263,24 @@ int
 StorageReflectSession ::
 PassMessageCallback(DataNode & node, void * userData)
 {
-   return PassMessageCallbackAux(node, *((MessageRef *)userData), IsRoutingFlagSet(MUSCLE_ROUTING_FLAG_REFLECT_TO_SELF));
+   PassMessageCallbackArgs * args = static_cast<PassMessageCallbackArgs *>(userData);
+   return PassMessageCallbackAux(node, args->_msgRef, args->_includeSelfOkay, &args->_sentTo);
 }
 
 int
 StorageReflectSession ::
-PassMessageCallbackAux(DataNode & node, const MessageRef & msgRef, bool includeSelfOkay)
+PassMessageCallbackAux(DataNode & node, const MessageRef & msgRef, bool includeSelfOkay, Hashtable<const AbstractReflectSession *, Void> * optSentTo)
 {
    TCHECKPOINT;
 
+   // The depth returned below makes the traversal leave the subtree of the session's current depth-3 node only, and a session node
+   // matched by a shorter pattern is still descended into for the longer ones:  so (optSentTo) is what guarantees one delivery per session.
    StorageReflectSession * next = dynamic_cast<StorageReflectSession *>(GetSession(node.GetAncestorNode(NODE_DEPTH_SESSIONNAME, &node)->GetNodeName())());
-   if ((next)&&((next != this)||(includeSelfOkay))) next->MessageReceivedFromSession(*this, msgRef, &node);
+   if ((next)&&((next != this)||(includeSelfOkay))&&((optSentTo == NULL)||(optSentTo->ContainsKey(next) == false)))
+   {
+      if (optSentTo) (void) optSentTo->PutWithDefault(next);
+      next->MessageReceivedFromSession(*this, msgRef, &node);
+   }
    return NODE_DEPTH_SESSIONNAME; // This causes the traversal to immediately skip to the next session
 }
 
